@@ -238,7 +238,7 @@ func (x *Exec) evalSpec(e *Expr, env *Env) Val {
 		if e.Args[2] != nil {
 			hi = x.evalSpec(e.Args[2], env).T
 		}
-		return Val{K: KSlice, Typ: base.Typ, T: sx("mk_slice", sArr(base.T), plus(sOff(base.T), lo), sx("-", hi, lo), sx("-", sCap(base.T), lo))}
+		return Val{K: KSlice, Typ: base.Typ, T: sx("mk_slice", sArr(base.T), plus(sOff(base.T), lo), minus(hi, lo), minus(sCap(base.T), lo))}
 	case "unary":
 		a := x.evalSpec(e.Args[0], env)
 		switch e.Name {
@@ -263,13 +263,23 @@ func (x *Exec) evalSpec(e *Expr, env *Env) Val {
 	case "forall", "exists":
 		n := env.child()
 		var bs []string
+		n.bound = map[string]bool{}
+		for k := range env.bound {
+			n.bound[k] = true
+		}
 		for _, v := range e.Vars {
 			nm := x.freshName("q_" + v)
+			n.bound[v] = true
 			n.vars[v] = specInt(nm)
 			bs = append(bs, "("+nm+" Int)")
 		}
 		body := x.evalSpec(e.Args[0], n)
-		return specBool("(" + e.Op + " (" + strings.Join(bs, " ") + ") " + body.T + ")")
+		var bnames []string
+		for _, v := range e.Vars {
+			bnames = append(bnames, n.vars[v].T)
+		}
+		_ = bs
+		return specBool(normalizeForall(e.Op, bnames, body.T))
 	case "call":
 		return x.evalCall(e, env)
 	case "str":
@@ -280,6 +290,11 @@ func (x *Exec) evalSpec(e *Expr, env *Env) Val {
 }
 
 func (x *Exec) evalIdent(name string, env *Env) Val {
+	if env.fr != nil && !env.bound[name] {
+		if v, ok := x.lookupPhi(env.fr, name, env.st); ok {
+			return v
+		}
+	}
 	if v, ok := env.vars[name]; ok {
 		return v
 	}
@@ -653,6 +668,22 @@ func (x *Exec) evalCall(e *Expr, env *Env) Val {
 		key := x.evalSpec(e.Args[1], env)
 		h := x.heapFor(env, "G_"+nm, "(Array Int Int)")
 		return specInt(sx("select", h, x.termOf(key)))
+	case "entry":
+		if e.Args[0].Op != "ident" {
+			bail("entry() takes a parameter name")
+		}
+		v, ok := x.params[e.Args[0].Name]
+		if !ok {
+			bail("entry(%s): no such parameter", e.Args[0].Name)
+		}
+		return v
+	case "at":
+		// at(s, j): element at absolute row index j of the array backing slice s
+		as := args()
+		a := as[0]
+		key, el := x.sliceHeap(a.Typ)
+		h := x.heapFor(env, key, x.P.ss.heapSort(el, true))
+		return x.mkVal(sx("select", sx("select", h, sArr(a.T)), as[1].T), el)
 	case "row":
 		// row(s): the backing row (Array Int T) of slice s in the current heap
 		a := args()[0]
@@ -675,7 +706,7 @@ func (x *Exec) evalSpecFn(sf *SpecFunc, e *Expr, env *Env) Val {
 		bail("spec function expansion too deep (recursive macro?) at %s", sf.Name)
 	}
 	n := &Env{st: env.st, vars: map[string]Val{}, old: env.old, useOld: env.useOld, pkg: sf.Pkg, depth: env.depth + 1}
-	if sf.Rec {
+	if sf.Rec || sf.Opaque {
 		var ts []string
 		for _, a := range e.Args {
 			ts = append(ts, x.termOf(x.evalSpec(a, env)))
@@ -698,3 +729,100 @@ func (x *Exec) evalSpecFn(sf *SpecFunc, e *Expr, env *Env) Val {
 }
 
 var _ = math.MaxInt32
+
+// choosePatterns selects e-matching triggers for a quantifier body: array reads whose
+// index mentions a bound variable, grouped by row. Reads of the same row at several
+// indices (a[j], a[j+1]) form ONE multi-pattern (no matching loop); reads of different
+// rows are alternative patterns.
+func choosePatterns(body string, bound []string) string {
+	type sel struct{ term, row string }
+	var sels []sel
+	seen := map[string]bool{}
+	mentions := func(s string) map[string]bool {
+		m := map[string]bool{}
+		for _, b := range bound {
+			if containsSym(s, b) {
+				m[b] = true
+			}
+		}
+		return m
+	}
+	var walk func(t string, underBinder bool)
+	walk = func(t string, underBinder bool) {
+		parts := splitSexp(t)
+		if parts == nil {
+			return
+		}
+		if parts[0] == "forall" || parts[0] == "exists" {
+			return // do not take terms mentioning inner bound variables
+		}
+		if parts[0] == "select" && len(parts) == 3 {
+			if len(mentions(parts[2])) > 0 && len(mentions(parts[1])) == 0 {
+				if !seen[t] {
+					seen[t] = true
+					sels = append(sels, sel{t, parts[1]})
+				}
+				return
+			}
+		}
+		for _, p := range parts[1:] {
+			walk(p, underBinder)
+		}
+	}
+	walk(body, false)
+	if len(sels) == 0 {
+		return ""
+	}
+	groups := map[string][]string{}
+	var order []string
+	for _, s := range sels {
+		if _, ok := groups[s.row]; !ok {
+			order = append(order, s.row)
+		}
+		groups[s.row] = append(groups[s.row], s.term)
+	}
+	var pats []string
+	for _, r := range order {
+		cov := map[string]bool{}
+		for _, t := range groups[r] {
+			for b := range mentions(t) {
+				cov[b] = true
+			}
+		}
+		if len(cov) == len(bound) {
+			pats = append(pats, ":pattern ("+strings.Join(groups[r], " ")+")")
+		}
+	}
+	if len(pats) == 0 {
+		var all []string
+		cov := map[string]bool{}
+		for _, s := range sels {
+			all = append(all, s.term)
+			for b := range mentions(s.term) {
+				cov[b] = true
+			}
+		}
+		if len(cov) != len(bound) {
+			return ""
+		}
+		return ":pattern (" + strings.Join(all, " ") + ")"
+	}
+	return strings.Join(pats, " ")
+}
+
+func containsSym(s, sym string) bool {
+	for i := 0; ; {
+		j := strings.Index(s[i:], sym)
+		if j < 0 {
+			return false
+		}
+		j += i
+		end := j + len(sym)
+		okL := j == 0 || s[j-1] == ' ' || s[j-1] == '('
+		okR := end == len(s) || s[end] == ' ' || s[end] == ')'
+		if okL && okR {
+			return true
+		}
+		i = j + 1
+	}
+}
